@@ -228,8 +228,7 @@ static int Rec_Format_From(var self, int pos, const char* fmt, va_list va) { ret
 var RecSink = Cello(RecSink, Instance(Format, Rec_Format_To, Rec_Format_From));
 
 /* ------------------------------------------------------------------ helpers */
-static char tmp_path[256];
-static void tmp_cleanup(void) { if (tmp_path[0]) unlink(tmp_path); }
+static FILE* tmp_fp = NULL;   /* one anonymous tmp file (unlinked right after creation), truncated for every op */
 
 static int split(char* l, char*** out) {
   size_t cap = 64; int n = 0; char** t = malloc(cap * sizeof(char*));
@@ -450,8 +449,8 @@ static void run_P(OpD* op, size_t line, int claim_unchanged) {
   }
   /* ---- F: File */
   {
-    FILE* fp = fopen(tmp_path, "w+");
-    if (!fp) { perror("tmp file"); exit(2); }
+    FILE* fp = tmp_fp;
+    fflush(fp); if (ftruncate(fileno(fp), 0)) { perror("ftruncate"); exit(2); } rewind(fp);
     if (op->start) fwrite(op->old.p, 1, (size_t)op->start, fp);
     fflush(fp);
     var f = new_raw(File);
@@ -472,7 +471,7 @@ static void run_P(OpD* op, size_t line, int claim_unchanged) {
       buf_free(&a);
     }
     free(fb);
-    ((struct File*)f)->file = NULL; fclose(fp);
+    ((struct File*)f)->file = NULL;
     del_raw(f);
   }
   del_raw(s2); del_raw(inner);
@@ -544,9 +543,11 @@ int main(int argc, char** argv) {
   size_t n; char** lines = v_read_lines(argv[1], &n);
   {
     const char* dir = access("/dev/shm", W_OK) == 0 ? "/dev/shm" : ".";
+    char tmp_path[256];
     snprintf(tmp_path, sizeof tmp_path, "%s/h_fmt_%d_XXXXXX", dir, (int)getpid());
     int fd = mkstemp(tmp_path); if (fd < 0) { perror("mkstemp"); return 2; }
-    close(fd); atexit(tmp_cleanup);
+    tmp_fp = fdopen(fd, "w+"); if (!tmp_fp) { perror("fdopen"); return 2; }
+    unlink(tmp_path);
   }
   for (size_t li = 0; li < n; li++) {
     char* l = lines[li];
